@@ -162,6 +162,7 @@ def _rename(rr, rule):
 
 def run(ctx, t0):
     facts = ctx.facts()
+    pat.FACTS = facts
     rules = [rule_emitters(facts), _rename(C05.rule_commit(facts), "C15.R2"), _rename(C05.rule_staging(facts), "C15.R3"),
              _rename(C05.rule_refill(facts), "C15.R4"), _rename(C05.rule_constants(facts), "C15.R4b"), rule_allow_incomplete(facts)]
     expl = ("Static, structural clauses only: who-may-emit enumeration of the window's append calls with control dependence on the update "
